@@ -30,11 +30,10 @@ def r1_census(ctx):
                 "unwrap/expect/panic/unreachable, indexing call, bounds/division assert and usize subtraction is discharged automatically or within "
                 "its reviewed per-(function, kind) ceiling")
     F = ctx.facts
-    with F.raw_mode():
-        roots, reach = runtime_reach(F)
-        ctx.floor(R, "runtime entry points", len(roots), 25)
-        ctx.floor(R, "functions on the runtime paths", len(reach), 300)
-        census.run_census(ctx, R, reach, "c15.json")
+    roots, reach = runtime_reach(F)
+    ctx.floor(R, "runtime entry points", len(roots), 25)
+    ctx.floor(R, "functions on the runtime paths", len(reach), 300)
+    census.run_census(ctx, R, reach, "c15.json")
 
 
 def r2_error_writes(ctx):
